@@ -50,6 +50,9 @@ LEAVES = [
      [P("view[offset + 10]", "b10"), P("view[offset + 11]", "b11")], "num", N),
     ("Incoming", "eager_others", F, "DNSIncoming._initial_parse", ("if", "self._num_questions", 0),
      [P("self._num_questions", "nq")], "bool", N),
+    # ---- loop bounds of the two section loops
+    ("Incoming", "q_loop_count", F, "DNSIncoming._read_questions", ("for_range", 0), [P("self._num_questions", "nq")], "num", N),
+    ("Incoming", "r_loop_count", F, "DNSIncoming._read_others", ("for_range", 0), [P("n", "n")], "num", N),
     # ---- questions
     ("Incoming", "q_len", F, "DNSIncoming._read_questions", ("aug", "self.offset", 0), [], "num", N),
     ("Incoming", "q_type", F, "DNSIncoming._read_questions", ("assign", "type_", 0),
